@@ -80,7 +80,7 @@ Print Assumptions C11_help_command.
 Theorem C11_help_command_unknown_topic :
   forall specs st pl ups a0 rest,
     up st = pl :: ups ->
-    List.find (fun kc => str_eqb (ni_name (n_info (snd kc))) a0) (n_cmds (lv_node pl)) = None ->
+    alookup a0 (n_cmds (lv_node pl)) = None ->
     run_help specs st (a0 :: rest) = DErr (mkErrA ENoHelpTopic [a0] (msg_no_help_topic a0) false).
 Proof. exact help_command_unknown_topic. Qed.
 Print Assumptions C11_help_command_unknown_topic.
